@@ -306,6 +306,15 @@ def coq_assumptions(prop):
     return res
 
 
+def coqchk(prop):
+    """Independent re-check of Properties_<prop>.vo and everything it depends on (thorough tier)."""
+    with Lock("coq"):
+        rc, o = sh(["timeout", "3000", "coqchk", "-o", "-silent", "-Q", ".", "LP", "LP.Properties_%s" % prop], cwd=COQ)
+    m = re.search(r"\* Axioms:(.*?)\n\s*\n\* Constants", o, re.S)
+    axioms = [a.strip() for a in (m.group(1).split("\n") if m else []) if a.strip() and a.strip() != "<none>"]
+    return {"ok": rc == 0, "axioms_of_loaded_libraries": axioms, "tail": o[-1500:]}
+
+
 # --------------------------------------------------------------------------- OCaml side
 
 MDRIVER_ML = """(* GENERATED: model driver.  `mdriver <prop>` reads cases on stdin (one per line), prints one result
